@@ -69,14 +69,15 @@ prop("C20", "exhaustive enumeration of all interpretation vectors up to length 7
      "All 21845 vectors over {false, true, Term(2), Term(12)} of length <= 7: both public iterators collected and compared as multisets with the 2^k completions / 3^k refinements, first three-valued item = input; exhausted iterators stay exhausted. Long vectors (up to 70000 entries, undecided positions at 63/64/65, 255/256, 65535/65536) and prefixes of the enumeration for 20-70 undecided positions; iterator adaptors (nth, count, last, skip, step_by, fold, ...) agree with plain next from every number of items taken; repetition with a TRACE logger.",
      "Trusted: the independent enumeration of completions/refinements (adfmc/src/c20.rs).", "DESIGN.md 4 C20")
 
-SRV = "Trusted: the in-harness MongoDB stub's semantics for the six commands the server uses (equality filters, $set with dotted paths, replacement keeping _id, unique index on insert and update, n/nModified) - the environment model; the Python copy of the definitional oracle (srvmc/harness.py). Timing (the 120 s compute time-out) and memory-level races inside one handler are not explored."
+REG = " Registry of running tasks: loom (DPOR, preemption bound 2, thorough 3-4; every execution runs to completion) over threads that execute the server's own RunningGuard / RunningInfo / Task / listing source text (extracted from server/src at build time by runlock/build.rs and compiled against loom's Mutex): a listing or admission test never reports a task that had ended before the request began or that belongs to another (user, problem, kind); once every task has ended the registry is empty; no deadlock, panic or poisoned lock in any schedule."
+SRV = "Trusted: the in-harness MongoDB stub's semantics for the six commands the server uses (equality filters, $set with dotted paths, replacement keeping _id, unique index on insert and update, n/nModified) - the environment model; the Python copy of the definitional oracle (srvmc/harness.py). Timing (the 120 s compute time-out) is not explored; inside one handler only the lock operations on the registry of running tasks are interleaved (loom), not other memory accesses."
 
-prop("C16", "explicit-state search on the real server binary over a MongoDB wire-protocol stub that captures the background result writes as explicit events",
+prop("C16", "explicit-state search on the real server binary over a MongoDB wire-protocol stub that captures the background result writes as explicit events + loom exploration of all lock interleavings of the running-task registry (source text extracted from the working tree)",
      "Every ADF of A(1) and A(2) (thorough: + F(3,1)) x both parsing strategies is submitted over HTTP; six strategies in rotated order with GETs after the computation ended but before its result is stored and after; for 8 codes (thorough: all of A(2)) a breadth-first search over the whole lattice of solved-strategy subsets (64 states / 192 transitions each, restored from database snapshots); every stored result = definitional answer as multiset; every graph: node set = closure of the roots, one lo/hi edge per decision node, walking from the root label of s under every assignment consistent with the shown model evaluates s's condition; unparseable and ill-formed codes end as Error and are never solved; running_tasks empty whenever every task has ended; label-variety and 12-statement codes; a second user asking while a long computation runs must not see that task (also when the joined account / problem names of the two coincide); a problem name used again after deletion, also with a result write of the deleted problem still on its way. 22k requests in the quick tier.",
-     SRV, "DESIGN.md 4 C16", engine="srvmc")
-prop("C17", "explicit-state BFS over request histories of two clients (snapshot/restore, deferrable background writes) + controlled-scheduler exploration of all database-command interleavings of concurrent requests, on the real server binary",
+     SRV + REG, "DESIGN.md 4 C16", engine="srvmc")
+prop("C17", "explicit-state BFS over request histories of two clients (snapshot/restore, deferrable background writes) + controlled-scheduler exploration of all database-command interleavings of concurrent requests, on the real server binary + loom exploration of all lock interleavings of the running-task registry",
      "E1: breadth-first search to depth 3 from the empty service and depth 2-3 from four seeds over an alphabet of 33 requests per client (register/login/update incl. the other's and a shared name, logout, info, delete-account, add with and without session, solve, get, list, delete, unauthenticated variants) plus 'apply pending background write'; E2: for 140 (request, request sequence) pairs every interleaving of their database commands with <= 1 preemption (thorough 3), each replayed from a seed snapshot under a scheduler that parks every command. After every transition: no foreign marker in a response, foreign documents byte-identical, unauthenticated requests refused, login succeeds iff the password is the one last set, credentials are salted argon2 hashes and never plaintext, account names unique, and alone-equivalence (differential: the client's projected history re-executed alone, memoised). E3: the other client asks while a long computation runs (window observed through the stub). Passwords are 80/81 bytes long and share their first 72 bytes; E2 includes concurrent registrations of one fresh name. Login with the name of a temporary account is part of the alphabet.",
-     SRV + " Clients never share passwords, so every cross-account access is illegitimate. Known finding K1 (mutable account name as key) is matched on the hand-over pattern in the history, not on the clause.", "DESIGN.md 4 C17", engine="srvmc")
+     SRV + " Clients never share passwords, so every cross-account access is illegitimate. Known finding K1 (mutable account name as key) is matched on the hand-over pattern in the history, not on the clause." + REG, "DESIGN.md 4 C17", engine="srvmc")
 
 
 def main():
@@ -115,6 +116,8 @@ def main():
              "kind_free_text": "Rust; stateless/explicit-state bounded exhaustive exploration of the real library and CLI against definitional oracles"},
             {"name": "srvmc", "path": "/verif/srvmc", "serves_properties": [c["property_id"] for c in checks if c["engine"] == "srvmc"],
              "kind_free_text": "Python; explicit-state and controlled-scheduler exploration of the real server binary over an in-harness MongoDB wire-protocol stub"},
+            {"name": "runlock", "path": "/verif/runlock", "serves_properties": [c["property_id"] for c in checks if c["engine"] == "srvmc"],
+             "kind_free_text": "Rust + loom 0.7; build.rs extracts RunningGuard / RunningInfo / Task / Strategy / AdfProblemInfo from /repo/server/src and the harness explores every interleaving of their lock operations (invoked by srvmc, results merged into the evidence of C16 and C17)"},
         ],
         "checks": checks,
         "not_applicable": na,
